@@ -39,8 +39,8 @@ Verdict(x) ==
     THEN [id |-> x.id, ok |-> FALSE, diff |-> -1, real |-> <<>>, want |-> <<>>,
           vcok |-> FALSE, n |-> 0]
     ELSE LET r == Run(CProg(x.prog), Arr(x), NbrsOf(x), x.env)
-             cr == Canon(x.log)
-             cm == Canon(r.log)
+             cr == Canon(x.log, EqDestOf(CProg(x.prog)))
+             cm == Canon(r.log, EqDestOf(CProg(x.prog)))
              df == FirstDiff(cr, cm)
          IN [id |-> x.id, ok |-> df = 0, diff |-> df,
              real |-> IF df > 0 /\ df <= Len(cr) THEN <<cr[df]>> ELSE <<>>,
